@@ -1,5 +1,6 @@
 import SnaxVerif.Drv.Basic
 import SnaxVerif.Model.SetupVals
+import SnaxVerif.Model.SetupValsPhs
 namespace SnaxVerif.Drv.C08
 open Lean SnaxVerif SnaxVerif.Drv SnaxVerif.SV
 
@@ -30,8 +31,13 @@ def patternOf (j : Json) : Except String Pattern := do
 def streamOpOf (j : Json) : Except String StreamOp := do
   return { pats := ← listOf patternOf (← field j "pats"), zero := ← listOf bool (← field j "zero") }
 
+/-- "fixes": the list of repairs applied to the tree under test, by name of the fix diff -/
 def variantOf (j : Json) : Except String Variant := do
-  return if (← bool (← field j "fixed")) then .fixed else .pristine
+  let fs ← listOf str (← field j "fixes")
+  for f in fs do
+    if !(["F11", "F14", "FC08a", "FC08b", "FC08c"].contains f) then throw s!"unknown fix {f}"
+  return { f11 := fs.contains "F11", f14 := fs.contains "F14", zeroPerOperand := fs.contains "FC08a",
+           extCsrLen := fs.contains "FC08b", loopAllDims := fs.contains "FC08c" }
 
 def rescaleOf (j : Json) : Except String Rescale := do
   return { inZp := ← int (← field j "in_zp"), outZp := ← int (← field j "out_zp"),
@@ -41,6 +47,7 @@ def rescaleOf (j : Json) : Except String Rescale := do
 def leafJ : Leaf → Json
   | .opnd i => Json.arr #[Json.str "opnd", jNat i] | .inp i => Json.arr #[Json.str "inp", jNat i]
   | .ptr i => Json.arr #[Json.str "ptr", jNat i] | .dim i => Json.arr #[Json.str "dim", jNat i]
+  | .dimDiv4 i => Json.arr #[Json.str "dimdiv4", jNat i]
 
 def valJ : Val → Json
   | .leaf l => leafJ l
@@ -49,18 +56,23 @@ def valJ : Val → Json
   | .shli a b => Json.arr #[Json.str "shl", valJ a, valJ b]
   | .ori a b => Json.arr #[Json.str "or", valJ a, valJ b]
 
-def result (fs : List Field) (r : Except Err (List Val)) (accepts : Option Bool := none) : Json :=
+def launchJ (l : List (String × Int)) : Json :=
+  jList (fun x : String × Int => Json.arr #[Json.str x.1, jInt x.2]) l
+
+def result (fs : List Field) (r : Except Err (List Val)) (accepts : Option Bool := none)
+    (launch : List (String × Int) := []) : Json :=
   let f := ("fields", jList (fun x : Field => Json.str x.name) fs)
   let a := match accepts with | some b => [("accepts", Json.bool b)] | none => []
   match r with
-  | .ok vs => Json.mkObj ([f, ("vals", jList valJ vs)] ++ a)
+  | .ok vs => Json.mkObj ([f, ("vals", jList valJ vs), ("launch", launchJ launch)] ++ a)
   | .error e => Json.mkObj ([f, ("raised", Json.str e.name)] ++ a)
 
-/-- args: {"cfg": [streamer], "op": streamop} -/
+/-- args: {"cfg": [streamer], "op": streamop, "fixes": [..]} -/
 def alu : Handler := fun j => do
   let cfg ← listOf streamerOf (← field j "cfg")
   let op ← streamOpOf (← field j "op")
-  return result (aluFields cfg) (aluVals cfg op) (some (regionAccepts cfg op))
+  let v ← variantOf j
+  return result (aluFields cfg) (aluVals v cfg op) (some (regionAccepts cfg op)) aluLaunch
 
 def gkernelOf (j : Json) : Except String GKernel := do
   match (← arr j).toList with
@@ -81,7 +93,7 @@ def gkernelOf (j : Json) : Except String GKernel := do
     | s => throw s!"bad kernel {s}"
   | _ => throw "bad kernel"
 
-/-- args: {"cfg", "n", "fixed", "op": streamop, "generics": [["mac", null | [a,b]] | ["rescale", r] | ["add"] |
+/-- args: {"cfg", "n", "fixes", "op": streamop, "generics": [["mac", null | [a,b]] | ["rescale", r] | ["add"] |
 ["other"]], "i8out": bool} -/
 def gemmx : Handler := fun j => do
   let cfg ← listOf streamerOf (← field j "cfg")
@@ -90,9 +102,14 @@ def gemmx : Handler := fun j => do
   let s ← streamOpOf (← field j "op")
   let op : GemmxOp := { s := s, generics := ← listOf gkernelOf (← field j "generics"),
                         i8out := ← bool (← field j "i8out") }
-  return result (gemmxFields cfg n) (gemmxVals v cfg n op) (some (regionAccepts cfg s))
+  let res := result (gemmxFields cfg n) (gemmxVals v cfg n op) (some (regionAccepts cfg s)) gemmxLaunch
+  match gemmxVals v cfg n op, gemmxParams v n op with
+  | .ok _, .ok P =>
+    let aj := Json.mkObj (P.attrs.map fun x => (x.1, jList jInt x.2))
+    return res.mergeObj (Json.mkObj [("launch_attrs", aj)])
+  | _, _ => return res
 
-/-- args: {"cfg", "fixed", "op": streamop, "kernel": ["notgeneric"] | ["add"] | ["other"] |
+/-- args: {"cfg", "fixes", "op": streamop, "kernel": ["notgeneric"] | ["add"] | ["other"] |
 ["rescale", down, in_zp, mult, out_zp, shift]} -/
 def xdma : Handler := fun j => do
   let cfg ← listOf streamerOf (← field j "cfg")
@@ -106,12 +123,64 @@ def xdma : Handler := fun j => do
       | s => throw s!"bad kernel {s}"
     | [_, d, a, b, c, e] => pure (XKernel.rescale (← bool d) (← int a) (← int b) (← int c) (← int e))
     | _ => throw "bad kernel"
-  return result (xdmaFields v cfg) (xdmaVals cfg { s := s, kernel := kernel }) (some (regionAccepts cfg s))
+  return result (xdmaFields v cfg) (xdmaVals v cfg { s := s, kernel := kernel }) (some (regionAccepts cfg s)) xdmaLaunch
+
+/-! PHS: kernel bodies in the wire format of the C20 driver (parsers repeated here so that this file does not depend
+on another property's driver) -/
+
+def tyOf (j : Json) : Except String Phs.Ty := do
+  match (← arr j).toList with
+  | [c, t] => return ⟨← str c, ← str t⟩
+  | _ => throw "bad type"
+
+def ksrcOf (j : Json) : Except String Phs.KSrc := do
+  match (← arr j).toList with
+  | [t, x] =>
+    match (← str t) with
+    | "a" => return .arg (← nat x)
+    | "r" => return .res (← nat x)
+    | s => throw s!"bad ksrc tag {s}"
+  | _ => throw "bad ksrc"
+
+def kopOf (j : Json) : Except String Phs.KOp := do
+  match (← arr j).toList with
+  | [n, t, os] => return { name := ← str n, resTy := ← tyOf t, operands := ← listOf ksrcOf os }
+  | _ => throw "bad kop"
+
+def bodyOf (j : Json) : Except String Phs.KBody := do
+  return { argTys := ← listOf tyOf (← field j "arg_tys"), ops := ← listOf kopOf (← field j "ops"),
+           yld := ← ksrcOf (← field j "yield") }
+
+/-- args: {"cfg", "op", "fixes", "bodies": [body] (merge history of the accelerator's processing element),
+"kernel": body (the generic inside the region)} -> fields / vals / raised / accepts, "wf": PE.wf of the element,
+"true": its true switches; {"invalid_input": true} if the history cannot be encoded / merged -/
+def phs : Handler := fun j => do
+  let cfg ← listOf streamerOf (← field j "cfg")
+  let op ← streamOpOf (← field j "op")
+  let v ← variantOf j
+  let bodies ← listOf bodyOf (← field j "bodies")
+  let kernel ← bodyOf (← field j "kernel")
+  let encs := bodies.map Phs.encode
+  let ks := encs.filterMap fun e => match e with | .ok p => some p | .error _ => none
+  if ks.length ≠ encs.length then return Json.mkObj [("invalid_input", Json.bool true)]
+  match ks with
+  | [] => return Json.mkObj [("invalid_input", Json.bool true)]
+  | k0 :: r =>
+    match Phs.mergeAll k0 r with
+    | .error _ => return Json.mkObj [("invalid_input", Json.bool true)]
+    | .ok A =>
+      let res := result (phsFields cfg A) (phsVals v cfg op A (Phs.encode kernel)) (some (regionAccepts cfg op)) phsLaunch
+      return res.mergeObj (Json.mkObj [("wf", Json.bool A.wf), ("true", jNat A.trueSwitches)])
+
+/-- args: {"cfg"}: the legacy linalg path of snax_alu on an accelerator with streamer configuration `cfg` -/
+def aluLinalg : Handler := fun j => do
+  let cfg ← listOf streamerOf (← field j "cfg")
+  return result (aluFields cfg) (.ok aluLinalgVals) none aluLaunch
 
 def hwpe : Handler := fun _ => do
-  return result hwpeFields (.ok hwpeVals)
+  return result hwpeFields (.ok hwpeVals) none hwpeLaunch
 
 def handlers : List (String × Handler) :=
-  [("c08.alu", alu), ("c08.gemmx", gemmx), ("c08.xdma", xdma), ("c08.hwpe", hwpe)]
+  [("c08.alu", alu), ("c08.gemmx", gemmx), ("c08.xdma", xdma), ("c08.hwpe", hwpe), ("c08.phs", phs), ("c08.alu_linalg", aluLinalg)]
 
 end SnaxVerif.Drv.C08
